@@ -274,8 +274,7 @@ func (s *Search) one() (o Object, err error) {
 	}
 
 	// prevent collecting all results and using only one
-	s.limit = 1
-	if sr, err = s.collect(); err != nil {
+	if sr, err = s.collectN(1); err != nil {
 		return
 	}
 	o = sr[0]
@@ -283,6 +282,12 @@ func (s *Search) one() (o Object, err error) {
 }
 
 func (s *Search) collect() (out []Object, err error) {
+	return s.collectN(s.limit)
+}
+
+// collectN collects at most limit results, the Search is left as it is: it
+// can be collected again (and by several goroutines)
+func (s *Search) collectN(limit uint64) (out []Object, err error) {
 	var it *iterator
 	var o Object
 
@@ -299,9 +304,9 @@ func (s *Search) collect() (out []Object, err error) {
 	}
 
 	out = make([]Object, 0, it.len())
-	for o, err = it.next(); err == nil && err != ErrEOI && s.limit > 0; o, err = it.next() {
+	for o, err = it.next(); err == nil && err != ErrEOI && limit > 0; o, err = it.next() {
 		out = append(out, o)
-		s.limit--
+		limit--
 	}
 
 	// normal end of iterator
